@@ -387,8 +387,14 @@ def check_dispatch(run, pkg):
     enum_q = pkg.cls("reader.reader_utils.DumpFileType").qual
     # the call through the table
     dyn = [e for e in it.events if e.kind == "call" and isinstance(e.data["call"][1], tuple)]
-    ok_call = len(dyn) == 1 and dyn[0].data["call"][1][1][0] == "sub" and dyn[0].data["call"][1][1][1][0] == "global" \
-        and dyn[0].data["call"][1][1][2] == ("attr", ("sym", "self"), "filetype")
+    gq = pkg.resolve_name(mi, "FILE_TYPE_MAP_READER")
+    table_term = None
+    if len(dyn) == 1 and dyn[0].data["call"][1][1][0] == "sub":
+        table_term = dyn[0].data["call"][1][1][1]
+    # the table is either referred to by name or (being an effectively constant literal) read through by the interpreter
+    is_table = table_term is not None and (table_term == ("global", gq) or
+                                           (table_term[0] == "dict" and {(show(k).split(".")[-1], v[1] if v[0] == "mod" else None) for k, v in table_term[1]} == set(table.items())))
+    ok_call = is_table and dyn[0].data["call"][1][1][2] == ("attr", ("sym", "self"), "filetype")
     run.ob("R-DISPATCH", fq, "table-call", True if ok_call else None, "the reader is selected by FILE_TYPE_MAP_READER[self.filetype]", show(dyn[0].data["call"][1][1])[:80] if dyn else "?",
            witness=None if ok_call else "reader not selected by file type", loc=fi.loc())
     for m in members:
